@@ -6,6 +6,9 @@ int g_f;      /* witness member of QXmppMessagePrivate: arbitrary, so a fact pro
 int g_s;      /* witness member of QXmppStanzaPrivate */
 int g_e;      /* witness member of QXmppPubSubEventPrivate (every member of it is sensitive: the event payload) */
 int gh_events_after_base;   /* ghost hook: writer events counted when the base-class serializeExtensions returned */
+/* "the mode includes the sensitive part" and "the element is <tag xmlns=ns/>" (specification vocabulary of parse.spec) */
+#define SENSITIVE_MODE(m) ((m) == QXmpp_SceMode__SceAll || (m) == QXmpp_SceMode__SceSensitive)
+#define ELEMENT_IS(e, tag, ns) (qdom_tagName(e) == (tag) && qdom_namespaceURI(e) == (ns))
 #define CLASS_OF(f) CLASS_QXmppMessagePrivate[f]
 #define CLASS_OF_S(f) CLASS_QXmppStanzaPrivate[f]
 #define TOUCHED_R(f) gh_rd_QXmppMessagePrivate[f]
